@@ -18,7 +18,7 @@ Section NI.
      through read-through caches (and at private state only through its own view) *)
   Definition oblivious (st : pstep) : Prop :=
     match st with
-    | PPriv _ f | PData _ f => forall v h1 h2, sim h1 h2 -> f v h1 = f v h2
+    | PPriv _ f | PData _ f | PCacheWrite _ f => forall v h1 h2, sim h1 h2 -> f v h1 = f v h2
     | PFill _ => True
     end.
   Definition sched_oblivious (s : list (N * pstep)) : Prop := Forall (fun ts => oblivious (snd ts)) s.
@@ -56,17 +56,19 @@ Section NI.
   (* one step of any render (within the footprint) keeps: read-only regions, cache invariant *)
   Lemma exec_ro h ts : step_footprint_ok (snd ts) = true -> forall l, ro l = true -> exec G h ts l = h l.
   Proof.
-    destruct ts as [rid st]. cbn [snd fst]. intros F l Hl. unfold exec. cbn [fst snd]. destruct st as [n f|c|n f]; cbn in F.
+    destruct ts as [rid st]. cbn [snd fst]. intros F l Hl. unfold exec. cbn [fst snd]. destruct st as [n f|c|n f|c f]; cbn in F.
     - now apply upd_ro.
     - unfold fill. apply upd_ro; [|exact Hl]. now apply cache_not_ro.
+    - discriminate.
     - discriminate.
   Qed.
 
   Lemma exec_cache_inv h ts : step_footprint_ok (snd ts) = true -> cache_inv h -> cache_inv (exec G h ts).
   Proof.
-    destruct ts as [rid st]. cbn [snd]. intros F I. unfold exec. cbn [fst snd]. destruct st as [n f|c|n f]; cbn in F.
+    destruct ts as [rid st]. cbn [snd]. intros F I. unfold exec. cbn [fst snd]. destruct st as [n f|c|n f|c f]; cbn in F.
     - apply cache_inv_upd_priv; [reflexivity|reflexivity|exact I].
     - now apply cache_inv_fill.
+    - discriminate.
     - discriminate.
   Qed.
 
@@ -91,7 +93,7 @@ Section NI.
   (* the private view as a function is only ever used pointwise; we keep steps extensional in it *)
   Definition view_ext (st : pstep) : Prop :=
     match st with
-    | PPriv _ f | PData _ f => forall v1 v2 h, (forall n, v1 n = v2 n) -> f v1 h = f v2 h
+    | PPriv _ f | PData _ f | PCacheWrite _ f => forall v1 v2 h, (forall n, v1 n = v2 n) -> f v1 h = f v2 h
     | PFill _ => True
     end.
 
@@ -101,7 +103,7 @@ Section NI.
     sim (exec G h (a, st)) (exec G h' (b, st)) /\ own_eq a b (exec G h (a, st)) (exec G h' (b, st)).
   Proof.
     intros F O V S E. split; [now apply sim_exec_both|].
-    intros n. unfold exec. cbn [fst snd]. destruct st as [m f|c|m f]; cbn in F; try discriminate.
+    intros n. unfold exec. cbn [fst snd]. destruct st as [m f|c|m f|c f]; cbn in F; try discriminate.
     - assert (Hv : f (own a h) h = f (own b h') h').
       { rewrite (V (own a h) (own b h') h (fun k => E k)). exact (O (own b h') h h' S). }
       destruct (N.eqb n m) eqn:Enm.
@@ -116,7 +118,7 @@ Section NI.
     sim (exec G h (b, st)) h' /\ own_eq a a (exec G h (b, st)) h'.
   Proof.
     intros Ne F S E. split; [now apply sim_exec_left|].
-    intros n. unfold exec. cbn [fst snd]. destruct st as [m f|c|m f]; cbn in F; try discriminate.
+    intros n. unfold exec. cbn [fst snd]. destruct st as [m f|c|m f|c f]; cbn in F; try discriminate.
     - rewrite upd_other; [exact (E n)|]. intros H. injection H as H1 _. contradiction.
     - unfold fill. rewrite upd_other; [exact (E n)|]. intros Hc. rewrite <- Hc in F. discriminate.
   Qed.
